@@ -30,6 +30,7 @@ sys.path.insert(0, VERIF)
 REPO = "/repo"
 PKG = "src/asphalt/core"
 WORK = "/tmp/mutsweep"
+PREFIX = "n" if ("--ops2" in sys.argv or os.environ.get("SWEEP_OPS2")) else "m"
 if "--work" in sys.argv:
     WORK = sys.argv[sys.argv.index("--work") + 1]
 DESELECT = " ".join(f"--deselect tests/test_cli.py::{t}" for t in ("test_run_bad_override", "test_run_bad_path", "test_run_missing_root_component_config", "test_run_missing_root_component_type"))
@@ -322,6 +323,103 @@ def enumerate_mutants(rel: str, src: str) -> list:
                             setattr(par, fld, n)
 
                         emit("ifexp-side", n, f"`{ast.unparse(n)[:60]}` -> always {which}", ap, un)
+    # ---- second operator set: ordering and await mutations
+    if "--ops2" in sys.argv or os.environ.get("SWEEP_OPS2"):
+        out2 = []
+
+        def emit2(op, node, desc, apply, undo):
+            apply()
+            try:
+                txt = ast.unparse(tree)
+                compile(txt, rel, "exec")
+                out2.append((op, getattr(node, "lineno", 0), desc, txt + "\n"))
+            except Exception:
+                pass
+            finally:
+                undo()
+
+        simple = (ast.Expr, ast.Assign, ast.AugAssign, ast.AnnAssign, ast.Raise, ast.Return, ast.If, ast.For, ast.While, ast.With, ast.AsyncWith, ast.Try)
+        for n in nodes:
+            if not in_function(n) or in_overload_or_typing(n):
+                continue
+            for fld in ("body", "orelse", "finalbody"):
+                block = getattr(n, fld, None)
+                if isinstance(block, list) and len(block) >= 2 and isinstance(block[0], ast.stmt):
+                    for i in range(len(block) - 1):
+                        a_, b_ = block[i], block[i + 1]
+                        if _is_docstring(a_) or not isinstance(a_, simple) or not isinstance(b_, simple) or isinstance(a_, (ast.Return, ast.Raise)):
+                            continue
+                        if isinstance(a_, (ast.Import, ast.ImportFrom)) or isinstance(b_, (ast.Import, ast.ImportFrom)):
+                            continue
+
+                        def ap(block=block, i=i):
+                            block[i], block[i + 1] = block[i + 1], block[i]
+
+                        emit2("swap-stmts", a_, f"swap `{ast.unparse(a_)[:45]}` <-> `{ast.unparse(b_)[:45]}`", ap, ap)
+            if isinstance(n, ast.Await):
+                par = parents.get(id(n))
+                for fld, val in ast.iter_fields(par) if par is not None else []:
+                    if val is n:
+                        def ap(par=par, fld=fld, n=n):
+                            setattr(par, fld, n.value)
+
+                        def un(par=par, fld=fld, n=n):
+                            setattr(par, fld, n)
+
+                        emit2("drop-await", n, f"`{ast.unparse(n)[:60]}` without await", ap, un)
+            if isinstance(n, (ast.With, ast.AsyncWith)) and len(n.items) == 2:
+                def ap(n=n):
+                    n.items.reverse()
+
+                emit2("swap-with-items", n, f"reverse `with {', '.join(ast.unparse(i)[:30] for i in n.items)}`", ap, ap)
+            if isinstance(n, ast.Call) and isinstance(n.func, ast.Attribute) and n.func.attr == "setdefault" and len(n.args) == 2:
+                par = parents.get(id(n))
+                if isinstance(par, ast.Expr):
+                    gp = parents.get(id(par))
+                    for fld in ("body", "orelse", "finalbody"):
+                        blk = getattr(gp, fld, None)
+                        if isinstance(blk, list) and par in blk:
+                            k = blk.index(par)
+                            repl = ast.copy_location(ast.Assign(targets=[ast.Subscript(value=n.func.value, slice=n.args[0], ctx=ast.Store())], value=n.args[1], lineno=par.lineno), par)
+                            ast.fix_missing_locations(repl)
+
+                            def ap(blk=blk, k=k, repl=repl):
+                                blk[k] = repl
+
+                            def un(blk=blk, k=k, par=par):
+                                blk[k] = par
+
+                            emit2("setdefault-to-store", n, f"`{ast.unparse(n)[:60]}` -> plain store", ap, un)
+            if isinstance(n, ast.Try) and n.body and len(n.body) >= 2 and n.handlers:
+                # move the last statement of the try body behind the try (narrow the protection)
+                last = n.body[-1]
+                par = parents.get(id(n))
+                for fld in ("body", "orelse", "finalbody"):
+                    blk = getattr(par, fld, None)
+                    if isinstance(blk, list) and n in blk and not n.orelse:
+                        k = blk.index(n)
+
+                        def ap(n=n, blk=blk, k=k, last=last):
+                            n.body.pop()
+                            n.orelse = [last]
+
+                        def un(n=n, last=last):
+                            n.orelse = []
+                            n.body.append(last)
+
+                        emit2("narrow-try", n, f"move `{ast.unparse(last)[:50]}` from the try body to else", ap, un)
+            if isinstance(n, ast.Attribute) and isinstance(n.value, ast.Name) and n.value.id == "self" and n.attr in ("_resources", "_resource_factories") and isinstance(n.ctx, ast.Load):
+                other = "_resource_factories" if n.attr == "_resources" else "_resources"
+                oldattr = n.attr
+
+                def ap(n=n, other=other):
+                    n.attr = other
+
+                def un(n=n, oldattr=oldattr):
+                    n.attr = oldattr
+
+                emit2("sibling-attr", n, f"self.{oldattr} -> self.{other}", ap, un)
+        out = out2
     # de-duplicate identical sources
     seen, uniq = set(), []
     for op, ln, desc, txt in out:
@@ -348,7 +446,7 @@ def cmd_gen():
                 if txt == base:
                     continue
                 n += 1
-                fh.write(json.dumps({"id": f"m{n:05d}", "file": rel, "op": op, "line": ln, "desc": desc, "src": txt}) + "\n")
+                fh.write(json.dumps({"id": f"{PREFIX}{n:05d}", "file": rel, "op": op, "line": ln, "desc": desc, "src": txt}) + "\n")
     print(f"{n} mutants written to {WORK}/mutants.jsonl")
 
 
@@ -455,8 +553,9 @@ def cmd_report():
     silent = [i for i in surv if i in static and i not in det and i not in err]
     os.makedirs(os.path.join(VERIF, "sweep"), exist_ok=True)
     summary = {"mutants": len(muts), "suite_run": len(suite), "killed_by_suite": len(suite) - len(surv), "survived_suite": len(surv), "reported_by_some_check": len(det), "analysis_error_only": len(err), "silent": len(silent)}
-    json.dump(summary, open(os.path.join(VERIF, "sweep", "summary.json"), "w"), indent=1)
-    with open(os.path.join(VERIF, "sweep", "survivors.jsonl"), "w") as fh:
+    sfx = "_ops2" if PREFIX == "n" else ""
+    json.dump(summary, open(os.path.join(VERIF, "sweep", f"summary{sfx}.json"), "w"), indent=1)
+    with open(os.path.join(VERIF, "sweep", f"survivors{sfx}.jsonl"), "w") as fh:
         for i in surv:
             m = muts[i]
             fh.write(json.dumps({"id": i, "file": m["file"], "line": m["line"], "op": m["op"], "desc": m["desc"], "checks": static.get(i, {}).get("verdicts")}) + "\n")
